@@ -62,8 +62,8 @@ struct Blob {
 }
 impl HandlerErased for Blob {
     fn handle(&self, req: &Message) -> Result<Message, RepeError> {
-        if req.body.len() != 24 {
-            return Err(RepeError::ServerError { code: ErrorCode::InvalidBody, message: "blob wants 24 bytes".into() });
+        if req.body.len() != 24 && req.body.len() != 32 {
+            return Err(RepeError::ServerError { code: ErrorCode::InvalidBody, message: "blob wants 24 or 32 bytes".into() });
         }
         let u = |o: usize| u64::from_le_bytes(req.body[o..o + 8].try_into().unwrap());
         let (q, b, s) = (u(0) as usize, u(8) as usize, u(16));
@@ -73,7 +73,12 @@ impl HandlerErased for Blob {
         if q > 0 {
             bld = bld.query_bytes(qpattern(q, s));
         }
-        Ok(bld.build())
+        let mut m = bld.build();
+        if req.body.len() == 32 {
+            // the handler's own answer is an error response (its body is the diagnostic)
+            m.header.ec = u(24) as u32;
+        }
+        Ok(m)
     }
     fn execution(&self) -> Execution {
         if self.off {
@@ -98,6 +103,19 @@ fn push_handler(ctx: &CallContext, v: Value) -> Result<Value, (ErrorCode, String
     }
 }
 
+/// Three pushes in a row from one handler call: a small one, the sized one, a small one.
+fn pushn_handler(ctx: &CallContext, v: Value) -> Result<Value, (ErrorCode, String)> {
+    let m = v["m"].as_u64().unwrap_or(1) as usize;
+    let n = v["n"].as_u64().unwrap_or(0) as usize;
+    let s = v["s"].as_u64().unwrap_or(0);
+    let method = String::from_utf8(qpattern(m, s)).unwrap();
+    let Some(p) = ctx.peer() else { return Ok(json!("no-peer")) };
+    let r1 = p.send_notify("/c1", NotifyBody::Raw(pattern(10, s), BodyFormat::RawBinary));
+    let r2 = p.send_notify(&method, NotifyBody::Raw(pattern(n, s), BodyFormat::RawBinary));
+    let r3 = p.send_notify("/c2", NotifyBody::Raw(pattern(11, s), BodyFormat::RawBinary));
+    if r1.is_ok() && r2.is_ok() && r3.is_ok() { Ok(json!("pushed")) } else { Ok(json!("push-failed")) }
+}
+
 fn ws_router() -> Router {
     Router::new()
         .with_erased_handler("/blob", Arc::new(Blob { off: false }))
@@ -105,6 +123,7 @@ fn ws_router() -> Router {
         .with_json_blocking("/jblob", |v: Value| Ok(json!("x".repeat(v["n"].as_u64().unwrap_or(0) as usize))))
         .with_json_ctx("/push", push_handler)
         .with_json_ctx_blocking("/push_off", push_handler)
+        .with_json_ctx("/pushn", pushn_handler)
         .with_json("/ping", |_v| Ok(json!("pong")))
 }
 
@@ -209,19 +228,28 @@ async fn make_world(limit: Option<usize>, upstream: SocketAddr) -> Result<World,
     // --- real WebSocket server
     let reports: Reports = Arc::new(Mutex::new(Vec::new()));
     let registry = PeerRegistry::new();
-    let l = TcpListener::bind("127.0.0.1:0").await.map_err(|e| e.to_string())?;
-    let srv_addr = l.local_addr().unwrap();
-    {
+    // The server runs on a current-thread runtime of its own: the connection's reader (and inline
+    // handlers) and its writer interleave only at await points, so several messages are regularly
+    // queued at once when the writer gets to run.
+    let srv_addr = {
         let rep = reports.clone();
-        let server = WebSocketServer::new(ws_router()).with_limits(limits).with_peer_registry(registry.clone()).on_error(move |e| {
-            if let ConnectionError::OutboundTooLarge { method, size, limit } = e {
-                rep.lock().unwrap().push((method.clone(), *size, *limit));
-            }
+        let registry = registry.clone();
+        let (tx, rx) = tokio::sync::oneshot::channel();
+        std::thread::spawn(move || {
+            let rt = tokio::runtime::Builder::new_current_thread().enable_all().build().unwrap();
+            rt.block_on(async move {
+                let l = TcpListener::bind("127.0.0.1:0").await.unwrap();
+                let _ = tx.send(l.local_addr().unwrap());
+                let server = WebSocketServer::new(ws_router()).with_limits(limits).with_peer_registry(registry).on_error(move |e| {
+                    if let ConnectionError::OutboundTooLarge { method, size, limit } = e {
+                        rep.lock().unwrap().push((method.clone(), *size, *limit));
+                    }
+                });
+                let _ = server.serve_listener(l, "/repe").await;
+            });
         });
-        tokio::spawn(async move {
-            let _ = server.serve_listener(l, "/repe").await;
-        });
-    }
+        rx.await.map_err(|_| "server thread did not start".to_string())?
+    };
     // --- real proxy in front of the upstream AsyncServer
     let pl = TcpListener::bind("127.0.0.1:0").await.map_err(|e| e.to_string())?;
     let proxy_addr = pl.local_addr().unwrap();
@@ -302,7 +330,7 @@ struct Spec {
     blen: usize,
 }
 
-const FRAME_PATHS: &[&str] = &["inline", "off", "joff", "push", "pushoff", "bcast", "proxy"];
+const FRAME_PATHS: &[&str] = &["inline", "off", "joff", "push", "pushoff", "pushn", "bcast", "proxy"];
 
 fn route_of(path: &str) -> &'static str {
     match path {
@@ -311,6 +339,7 @@ fn route_of(path: &str) -> &'static str {
         "joff" => "/jblob",
         "push" => "/push",
         "pushoff" => "/push_off",
+        "pushn" => "/pushn",
         _ => "",
     }
 }
@@ -330,7 +359,9 @@ async fn run_frame(w: &mut World, s: &Spec) -> CaseResult {
     let path = s.kind.as_str();
     let seed = fnv(s.idx.as_bytes());
     let intended = 48 + s.qlen + s.blen;
-    let is_notify = matches!(path, "push" | "pushoff" | "bcast");
+    let is_notify = matches!(path, "push" | "pushoff" | "pushn" | "bcast");
+    // 1 in 4 of the handler-made responses is an error response of the handler's own
+    let own_ec: u32 = if matches!(path, "inline" | "off" | "proxy") && seed % 4 == 0 { if seed % 8 == 0 { 4096 } else { 5 } } else { 0 };
     let mut fails: Vec<(String, String)> = Vec::new();
     let mut broken = false;
     let fail = |fails: &mut Vec<(String, String)>, k: &str, d: String| fails.push((format!("limits.{}.{}", path, k), d));
@@ -345,6 +376,7 @@ async fn run_frame(w: &mut World, s: &Spec) -> CaseResult {
     };
     let mut expected = RawFrame::request(if is_notify { 0 } else { s.id }, is_notify, 1, &exp_query, exp_bfmt, &exp_body);
     expected.h.notify = is_notify as u8;
+    expected.h.ec = own_ec;
     let expected_bytes = expected.to_vec();
     debug_assert_eq!(expected_bytes.len(), intended);
 
@@ -362,6 +394,9 @@ async fn run_frame(w: &mut World, s: &Spec) -> CaseResult {
                 body.extend_from_slice(&(if own_query { s.qlen as u64 } else { 0 }).to_le_bytes());
                 body.extend_from_slice(&(s.blen as u64).to_le_bytes());
                 body.extend_from_slice(&seed.to_le_bytes());
+                if own_ec != 0 {
+                    body.extend_from_slice(&(own_ec as u64).to_le_bytes());
+                }
                 let conn = if conn_is_proxy { &mut w.proxy } else { &mut w.srv };
                 conn.send(&RawFrame::request(s.id, false, 1, route.as_bytes(), 0, &body)).await?;
                 let (others, r) = conn.recv_until(s.id).await?;
@@ -375,7 +410,7 @@ async fn run_frame(w: &mut World, s: &Spec) -> CaseResult {
                 delivered = others;
                 response = Some(r);
             }
-            "push" | "pushoff" => {
+            "push" | "pushoff" | "pushn" => {
                 let rid = w.fresh();
                 let body = serde_json::to_vec(&json!({"m": s.qlen, "n": s.blen, "s": seed})).unwrap();
                 w.srv.send(&RawFrame::request(rid, false, 1, route.as_bytes(), 2, &body)).await?;
@@ -426,6 +461,20 @@ async fn run_frame(w: &mut World, s: &Spec) -> CaseResult {
     }
     let sizes = if conn_is_proxy { w.proxy.sizes.clone() } else { w.srv.sizes.clone() };
     let reports = w.reports.lock().unwrap().clone();
+    // the two small pushes around the sized one on the `pushn` path
+    let chaff: Vec<RawFrame> = delivered.iter().filter(|f| f.h.notify != 0 && (f.query == b"/c1" || f.query == b"/c2")).cloned().collect();
+    delivered.retain(|f| !(f.h.notify != 0 && (f.query == b"/c1" || f.query == b"/c2")));
+    if path == "pushn" && !broken {
+        let mut c1 = RawFrame::request(0, true, 1, b"/c1", 0, &pattern(10, seed));
+        c1.h.notify = 1;
+        let mut c2 = RawFrame::request(0, true, 1, b"/c2", 0, &pattern(11, seed));
+        c2.h.notify = 1;
+        if chaff != vec![c1, c2] {
+            fail(&mut fails, "neighbours_changed", format!("{}: the small notifications pushed before and after the sized one did not arrive unchanged and in order ({} arrived)", s.idx, chaff.len()));
+        }
+    } else if !chaff.is_empty() {
+        fail(&mut fails, "unexpected_message", format!("{}: {} stray notification(s)", s.idx, chaff.len()));
+    }
     // ---- observation --------------------------------------------------------------------------
     let mut rlen = 0usize;
     let what = if is_notify {
@@ -436,7 +485,8 @@ async fn run_frame(w: &mut World, s: &Spec) -> CaseResult {
         }
     } else {
         match &response {
-            Some(f) if f.h.ec == 0 => format!("send {} {}", f.to_vec().len(), if f.to_vec() == expected_bytes { "same" } else { "differs" }),
+            Some(f) if f.to_vec() == expected_bytes => format!("send {} same", f.to_vec().len()),
+            Some(f) if f.h.ec == 0 => format!("send {} differs", f.to_vec().len()),
             Some(f) => {
                 rlen = f.body.len();
                 format!("send {} replaced {} {}", f.to_vec().len(), f.h.ec, f.h.id)
@@ -633,10 +683,11 @@ fn gen_specs(rng: &mut Rng, thorough: bool) -> Vec<Spec> {
                 let qlen = match k {
                     "joff" => route_len,
                     "inline" | "off" | "proxy" => {
-                        if rng.chance(1, 2) {
-                            route_len
-                        } else {
-                            rng.range(1, 64.min((t - 48).max(1)) as u64) as usize
+                        match rng.below(6) {
+                            0 | 1 | 2 => route_len,
+                            // a long handler-chosen query: most of the frame is query
+                            3 => (t - 48).saturating_sub(rng.below(40) as usize).max(1),
+                            _ => rng.range(1, 64.min((t - 48).max(1)) as u64) as usize,
                         }
                     }
                     _ => match rng.below(4) {
@@ -679,7 +730,7 @@ fn parse_spec(line: &str) -> Option<Spec> {
 fn main() {
     let args = Args::parse();
     let mut out = Out::new(&args.out);
-    out.rule = "per assumed peer limit {1 KiB, 4 KiB, 64 KiB, 1 MiB, none; thorough adds 16 MiB, 300, 100000} and per outbound path {inline response, off-reader response (custom erased handler), off-reader response (with_json_blocking), ctx.peer() notify from an inline and from an off-reader handler, PeerRegistry broadcast, proxy-forwarded response, client request, client notify}: frame sizes limit-2..limit+2 plus random sizes (small, below, just above, far above, near the limit), random split between query and body, handler-chosen or echoed query, body buffers with and without spare capacity; each case is followed by one more request on the same connection. Distinct by op line; non-trivial = the guard fired (size > limit) or the size is within 2 of the limit".into();
+    out.rule = "per assumed peer limit {1 KiB, 4 KiB, 64 KiB, 1 MiB, none; thorough adds 16 MiB, 300, 100000} and per outbound path {inline response, off-reader response (custom erased handler), off-reader response (with_json_blocking), ctx.peer() notify from an inline and from an off-reader handler, three pushes in a row from one handler call with the sized one in the middle, PeerRegistry broadcast, proxy-forwarded response, client request, client notify}: frame sizes limit-2..limit+2 plus random sizes (small, below, just above, far above, near the limit), random split between query and body, handler-chosen (also very long) or echoed query, 1 in 4 handler answers an error response of its own, body buffers with and without spare capacity; each case is followed by one more request on the same connection. Distinct by op line; non-trivial = the guard fired (size > limit) or the size is within 2 of the limit".into();
     let rt = tokio::runtime::Builder::new_multi_thread().worker_threads(4).enable_all().build().unwrap();
     let mut rng = Rng::new(args.seed);
     let specs: Vec<Spec> = match args.replay_ops() {
